@@ -280,6 +280,19 @@ def record(task):
         return out
     if not any(len(c) for c in jn):
         return out
+    if sum(map(ord, str(task["seed"]))) % 2 == 0:
+        # a Crystal is a value: what other parts of the package computed on the SAME object before (full vector and
+        # tensor bases, an interstitial calculator) must not change the vector stars built afterwards
+        try:
+            from onsager import OnsagerCalc
+            crys_ = S["crys"]
+            crys_.FullVectorBasis(task["chem"])
+            crys_.SymmTensorBasis((task["chem"], 0))
+            OnsagerCalc.Interstitial(crys_, task["chem"], crys_.sitelist(task["chem"]), jn)
+            base["orient"] += "+used"
+        except Exception as ex:      # noqa: BLE001
+            out["errors"].append(("raised|%s|prior-use|%s" % (type(ex).__name__, fam), "%s: %s" % (type(ex).__name__, ex), base))
+            return out
     for (N, og) in task["variants"]:
         tag = "%s|chem=%d|shells=%d|N=%d|origin=%s|%s" % (fam, task["chem"], task["nshell"], N, og, base["orient"])
         try:
